@@ -15,7 +15,9 @@ for pid in ids:
     try:
         m = importlib.import_module(f"props.{pid.lower()}")
         e = m.MANIFEST_ENTRY
-    except Exception:
+    except Exception as ex:
+        if os.environ.get("GEN_MANIFEST_LENIENT") != "1":
+            raise SystemExit(f"cannot import props.{pid.lower()}: {ex} -- run with .venv/bin/python and PYTHONPATH=/verif:/repo/src")
         na.append({"property_id": pid, "reason": PENDING}); continue
     checks.append({
         "property_id": pid,
